@@ -1,6 +1,6 @@
 (* C19: arithmetic of the angle mesh along the chosen direction (tools.py:426-442):
    corners moved inwards by half a cell, same cell => one cell fewer; and the angle array. *)
-From DF Require Import Prelude FieldK NDArray Region Mesh Tools QLemmas.
+From DF Require Import Prelude FieldK NDArray Region Mesh Tools QLemmas C01_axis C01_lattice.
 Open Scope Q_scope.
 
 Lemma Qround_half_even_inject (x : Q) (z : Z) : x == inject_Z z -> Qround_half_even x = z.
@@ -69,7 +69,65 @@ Proof.
   assert (c / 2 + c / 2 == c) by field.
   unfold lo', hi' in *. repeat split; lra.
 Qed.
+
+(* every test that Region(p1, p2) and Mesh(region, cell) apply to this axis passes (the n-d constructors
+   apply these tests axis by axis): corners in order, non-zero edge, positive cell, the probe cell
+   [lo', lo'+c] inside the region for ANY non-negative tolerances, a whole number of cells, count k-1 *)
+Theorem angle_axis_accepted (rtol atol tol : Q) : 0 <= rtol -> 0 <= atol -> 0 <= tol ->
+  Qmin lo' hi' == lo' /\ Qmax lo' hi' == hi' /\ Qeq_bool (hi' - lo') 0 = false /\
+  Qltb 0 c = true /\
+  contains1 rtol atol lo' hi' lo' = true /\ contains1 rtol atol lo' hi' (lo' + c) = true /\
+  bad_rem tol c (hi' - lo') = false /\ Qround_half_even ((hi' - lo') / c) = (k - 1)%Z.
+Proof.
+  intros Hr Ha Ht.
+  pose proof angle_axis_inside as (I1 & I2 & I3).
+  pose proof angle_axis_count as HC. pose proof c_neq0 as Hc0.
+  assert (Hcp : 0 < c) by (unfold c, cell_of; apply Qdiv_pos; [lra | apply inject_Z_pos; lia]).
+  assert (E : hi' - lo' == inject_Z (k - 1) * c) by (rewrite <- HC; field; exact Hc0).
+  assert (H1 : 1 <= inject_Z (k - 1)) by (change 1 with (inject_Z 1); rewrite <- Zle_Qle; lia).
+  assert (Hge : c <= hi' - lo').
+  { rewrite E. assert (0 <= (inject_Z (k - 1) - 1) * c) by (apply Qmult_le_0_compat; lra). lra. }
+  destruct (bycell_exact_multiple c (hi' - lo') tol Hcp Ht (k - 1) ltac:(lia) E) as [B1 B2].
+  repeat split.
+  - apply Q.min_l. lra.
+  - apply Q.max_r. lra.
+  - destruct (Qeq_bool (hi' - lo') 0) eqn:Q0; [|reflexivity]. apply Qeq_bool_iff in Q0. lra.
+  - apply Qltb_true. exact Hcp.
+  - apply contains1_inside; try assumption; lra.
+  - apply contains1_inside; try assumption; lra.
+  - exact B1.
+  - exact B2.
+Qed.
 End Axis.
+
+(* an axis that is not the chosen direction (delta = 0) is rebuilt with its own count *)
+Theorem angle_other_axis_accepted (lo hi : Q) (k : Z) (rtol atol tol : Q) :
+  (1 <= k)%Z -> lo < hi -> 0 <= rtol -> 0 <= atol -> 0 <= tol ->
+  let c := cell_of lo hi k in
+  Qmin (lo + 0) (hi - 0) == lo /\ Qmax (lo + 0) (hi - 0) == hi /\ Qeq_bool ((hi - 0) - (lo + 0)) 0 = false /\
+  Qltb 0 c = true /\
+  contains1 rtol atol lo hi lo = true /\ contains1 rtol atol lo hi (lo + c) = true /\
+  bad_rem tol c (hi - lo) = false /\ Qround_half_even ((hi - lo) / c) = k.
+Proof.
+  intros Hk Hlt Hr Ha Ht c.
+  assert (Hkp : 0 < inject_Z k) by (apply inject_Z_pos; lia).
+  assert (Hcp : 0 < c) by (unfold c, cell_of; apply Qdiv_pos; [lra | exact Hkp]).
+  assert (E : hi - lo == inject_Z k * c) by (unfold c, cell_of; field; lra).
+  assert (H1 : 1 <= inject_Z k) by (change 1 with (inject_Z 1); rewrite <- Zle_Qle; lia).
+  assert (Hge : c <= hi - lo).
+  { rewrite E. assert (0 <= (inject_Z k - 1) * c) by (apply Qmult_le_0_compat; lra). lra. }
+  destruct (bycell_exact_multiple c (hi - lo) tol Hcp Ht k Hk E) as [B1 B2].
+  repeat split.
+  - rewrite Q.min_l by lra. lra.
+  - rewrite Q.max_r by lra. lra.
+  - destruct (Qeq_bool (hi - 0 - (lo + 0)) 0) eqn:Q0; [|reflexivity]. apply Qeq_bool_iff in Q0. lra.
+  - apply Qltb_true. exact Hcp.
+  - apply contains1_inside; try assumption; lra.
+  - apply contains1_inside; try assumption; lra.
+  - exact B1.
+  - exact B2.
+Qed.
+
 
 (* the angle array: value at i is acos(clip(o_i . o_{i+e_ax})), shape shortened by one *)
 Theorem angle_value (K : FOps) acosf clipf degf ax (o : idx -> K) i :
